@@ -125,7 +125,9 @@ class _CenterManifoldDynamicsService(_DynamicsServiceBase):
         cache_key = self.make_key("hamiltonian", degree)
 
         def _factory():
-            return self.pipeline_for_degree(degree).get_hamiltonian("center_manifold_real")
+            # Reading the Hamiltonian of another degree must not change the
+            # degree this center manifold (and its coordinate maps) works with.
+            return self._ham_pipeline.get(self.point, degree).get_hamiltonian("center_manifold_real")
         
         return self.get_or_create(cache_key, _factory)
 
